@@ -43,6 +43,9 @@ def run(project, rep):
     from .. import rules_parser as P
     rep.run(P.x_rules, project, rep)
     rep.run(W.l_r1_decimal, project, rep)
+    from .. import rules_values as V
+    rep.rule("W-R10", "what is read back is what was written: the reader's placement, decode tables and entity decoder (V-R1..V-R7; a decoder that decodes twice turns the written '&amp;amp;' into '&')")
+    rep.run(V.v_rules, schema, rep)
     rep.run(W.l_r3_datetime, project, rep)
     from .. import rules_dates as Z
     rep.rule("W-R9", "date-times survive as instants: writer offset notation inside the reader grammar (Z-R3), field-to-value plumbing (Z-R4), minutes take the sign of the hours (Z-R5)")
